@@ -41,7 +41,8 @@ def _snapshot_terms(P, key: str, f, c: ast.Call, s_p: str) -> Optional[Dict[str,
     if key in ("naive", "tmpl"):
         return {"cpu": f"{s_p}.executor.pools[{p}].avail_cpu_pool", "ram": f"{s_p}.executor.pools[{p}].avail_ram_pool", "kind": "live"}
     if key in ("priority", "priority-pool"):
-        return {"cpu": f"pool_stats[{p}]['avail_cpu']", "ram": f"pool_stats[{p}]['avail_ram']", "kind": "snapshot"}
+        D = sched.snapshot_name(f)
+        return {"cpu": f"{D}[{p}]['avail_cpu']", "ram": f"{D}[{p}]['avail_ram']", "kind": "snapshot"}
     return None
 
 
@@ -70,6 +71,21 @@ def check_no_oversell(ctx, num=1):
                 ctx.ob(num, "K8", f"[{key}] no oversell: the {res.upper()} requested is <= the free {res.upper()} of the pool it is placed on, on every path", ok, f, c,
                        construct=f"{res} <= free {res} of pool {norm.U(pid)}", detail=f"goal: {norm.show(goal)}; facts at the construction: "
                        f"{sorted(norm.show(x) for x in g.facts_at(c) if at in norm.show(x) or A[res] in norm.show(x))}")
+            if live:
+                # the pool's own counters are read, so at most one construction per pool per round may happen
+                lp_ = enclosing(c, (ast.For,), f.node)
+                pool_loop = None
+                while lp_ is not None:
+                    if isinstance(lp_.target, ast.Name) and pid is not None and norm.is_name(pid, lp_.target.id):
+                        pool_loop = lp_
+                    lp_ = enclosing(lp_, (ast.For,), f.node)
+                again = None
+                if pool_loop is not None:
+                    again = g.path_avoiding(g.node_of(c).id, {g.node_of(x).id for x in sites}, {g.node_of(pool_loop).id})
+                ctx.ob(num, "K8", f"[{key}] the pool's live free counters bound the request, so only one container per pool is started per round "
+                       "(a second one would be sized by counters the first has not yet reduced)", pool_loop is not None and again is None, f, c,
+                       construct="one construction per pool per round", detail="every path to another construction passes the pool-loop header" if again is None and pool_loop is not None
+                       else (g.describe_path(again) if again else "no loop over pool indices"))
             if not live and A is not None:
                 # snapshot initialised from the pool's own counters for the same index, decremented with the construction
                 for res, keyname in (("cpu", "avail_cpu"), ("ram", "avail_ram")):
@@ -249,7 +265,8 @@ def check_depletion_assert(ctx, num=9):
     for c in sites:
         pid = norm.U(sched.asg_arg(c, "pool_id"))
         cpu, ram = norm.U(sched.asg_arg(c, "cpu")), norm.U(sched.asg_arg(c, "ram"))
-        ac, ar = f"pool_stats[{pid}]['avail_cpu']", f"pool_stats[{pid}]['avail_ram']"
+        D = sched.snapshot_name(f)
+        ac, ar = f"{D}[{pid}]['avail_cpu']", f"{D}[{pid}]['avail_ram']"
         both_eq = norm._mk("and", [norm.mk_cmp("==", cpu, ac), norm.mk_cmp("==", ram, ar)])
         both_lt = norm._mk("and", [("cmp", "<", cpu, ac), ("cmp", "<", ram, ar)])
         ok = g.holds_at(c, norm._mk("or", [both_eq, both_lt]))
